@@ -55,7 +55,8 @@ class Contract:
                  use_at_calls=True, applicable=None, inline_fallback=False,
                  recursive_ok=False, fresh_result=False, may_raise_other=False,
                  opaque=None, merge=True, cuts=None, ghosts=None, ghost_init=None,
-                 on_yield=None, check_frames=True, regions=None, inline_calls=None, note=""):
+                 on_yield=None, check_frames=True, regions=None, inline_calls=None,
+                 abstract_calls=None, note=""):
         self.key = key
         # regions: [{"name", "when" (clause over the pre-state), "ensures": [...]}]: inside a
         # region the function is specified by the region's ensures INSTEAD of the general
@@ -66,6 +67,10 @@ class Contract:
         # this function / ghost program is verified (needed where the callee's contract does
         # not speak about the argument shape at hand)
         self.inline_calls = set(inline_calls or [])
+        # methods of the same class that are replaced, while THIS function is verified, by
+        # their uninterpreted stand-ins "<module>:<Class>.abstract.<name>" (a `returns`
+        # term built from the arguments): used to verify how operations are composed
+        self.abstract_calls = set(abstract_calls or [])
         self.requires = _lst(requires)
         self.ensures = _lst(ensures)
         self.returns = returns
@@ -223,6 +228,7 @@ class Engine(ExprMixin, CallMixin, StmtMixin):
         self.cur_case = case.name
         self.partial = getattr(case, "partial", False)
         self.force_inline = set(c.inline_calls)
+        self.abstract_calls = set(c.abstract_calls)
         self.cur_name = "%s[%s]" % (info.qualname, case.name)
         if region is not None:
             self.cur_name += ".region[%s]" % region
